@@ -145,8 +145,8 @@ example : (⟨.wdegrevlex 1 1, true⟩ : Order).cmp (2, 0) (1, 1) = 1 ∧
 
 /-! ### 7. leading data
 
-  A polynomial is a list of (exponent pair, coefficient) with pairwise distinct keys
-  (Go: the keys of a map).  Sortedness and maximality need no hypothesis on the order;
+  A polynomial is a list of (exponent pair, coefficient) with pairwise distinct okeys
+  (Go: the okeys of a map).  Sortedness and maximality need no hypothesis on the order;
   `Ld ∈ support` needs `(0,0)` to be least on the support (the fold of `Ld` starts from `(0,0)`).  -/
 
 variable {α : Type}
@@ -192,7 +192,7 @@ theorem ld_lc_mem (F : FOps α) (o : Order) (hadm : Admissible o) (f : BPoly α)
     (ld o f, lc F o f) ∈ f := by
   obtain ⟨p, hp, hpe⟩ := List.mem_map.mp (ld_mem o hadm f hne hno)
   have hp' : (ld o f, p.2) ∈ f := by rw [← hpe]; exact hp
-  have : lc F o f = p.2 := coef_of_mem F f hnd (ld o f) p.2 hp'
+  have : lc F o f = p.2 := coef_of_mem_nodup F f hnd (ld o f) p.2 hp'
   rw [this]; exact hp'
 
 /-- `Lt` is the one-term polynomial (`Ld`, `Lc`) when the stored coefficients are nonzero
@@ -205,7 +205,7 @@ theorem lt_eq (F : FOps α) (o : Order) (hadm : Admissible o) (f : BPoly α)
   exact ⟨lt_eq_single F o f (hnz _ hm), hm⟩
 
 /-- `SortedDegrees` is THE strictly decreasing listing of the support: any strictly decreasing
-    permutation of the keys (e.g. the output of Go's `sort.Slice`, whatever the map iteration order)
+    permutation of the okeys (e.g. the output of Go's `sort.Slice`, whatever the map iteration order)
     coincides with it. -/
 theorem sortedDegrees_unique (o : Order) (f : BPoly α) (hnd : (f.map (·.1)).Nodup) (l : List Deg)
     (hp : l.Perm (f.map (·.1))) (hs : l.Pairwise (fun a b => o.cmp a b = 1)) :
